@@ -36,6 +36,37 @@ CLAIMED = {
    "seams (numpy.argpartition / kernel wrappers) only count; reference objective with 1e-7 relative slack"),
 }
 
+CLAIMED.update({
+ "C09": ("exploration", "5 / C09",
+   TECH + "draws of the hidden generator behind the sparse power method (the simulator re-seeds numba's / numpy's generator per draw; adversarial start vectors in the interpreted twin); oracle = dense-SVD truth from the reference model",
+   "For seeded sparse matrices (low rank, clustered leading singular values, tiny / huge scale, zero columns) every sparse global and group constant is evaluated under 64 (quick) or 256 (thorough) generator seeds: never above the true value, not below the second singular direction's value, median equal to the leading one. Dense constants and raw_hessian are compared with the reference curvature as a deterministic by-product.",
+   "dense SVD (numpy) as truth; lower bound carries a 5% slack; by-product part is evaluation, not simulation"),
+ "C10": ("exploration", "5 / C10",
+   TECH + "paired replicas of one estimator-level fit that differ only in the container of X (dense F / C / strided view / CSC / CSR / list / float32); oracle = outcome class and converged objective within the convexity margin",
+   "The same seeded estimator and data are fitted on two storage replicas; both must solve (or the unsupported one be refused), each converged result must be stationary for the documented objective, and on convex problems the two objectives must agree within tol * ||w_a - w_b||_1 (single precision margin for float32).",
+   "reference objective; trajectories are never compared step by step"),
+ "C11": ("exploration", "5 / C11",
+   TECH + "estimator-level histories (construct with drawn arguments, fit, set_params, refit with and without warm start, path); oracle = certificate and witness optimum for the objective written in the estimator's documentation, with the current get_params()",
+   "All eleven documented estimators plus GeneralizedLinearEstimator compositions; after every fit that reports convergence the coefficients must be stationary (optimal when convex) for the documented objective built by the reference model from the constructor arguments; LinearSVC primal image; group formats through an independent reading of the documented group specification.",
+   "sklearn's removed BaseEstimator._validate_data is stubbed (two check_array calls); reference model"),
+ "C13": ("exploration", "5 / C13",
+   "deterministic simulation with fault injection: supervised execution (worker death, hang and wall-cap detection) of the solver x datafit x penalty x storage x intercept x strategy matrix under three scheduler draws per cell; stratified enumeration of the cells, seeded data and knobs",
+   "19152 cells x 3 scheduler draws (default knobs; tiny budget; warm start with p0 = 1). Outcome must be an explanatory refusal or a finite solve meeting the certificate; typing / index / arithmetic errors, non-finite values, hangs and worker deaths are violations keyed by cell. The quick tier visits a seed-rotated part of the compiled matrix and a twin pass; the thorough tier the whole matrix.",
+   "refusal strata are validated on the uncompiled objects first (validation only inspects attribute names); compiled engine for typing errors"),
+ "C18": ("exploration", "5 / C18",
+   TECH + "histories of 2-10 fits / paths over several datasets and estimators sharing datafit / penalty classes, jitclass-cache clearing / pollution, float32 and float64 interleaved; oracles = byte hashes of every input before / after, bitwise equality of the last fit with the same fit executed alone in a pristine forked interpreter (RNG seam pinned)",
+   "State that can leak between fits (lru_cache of jitclasses, compiled instances rewritten by path(), estimator attributes, hidden RNG) is exercised by seeded histories; the final fit is compared bit for bit with a pristine-process fit; inputs are hashed around every operation; refits must succeed.",
+   "bitwise equality is only demanded within one engine with the RNG seam pinned; the pristine state is a fork taken before the worker compiled or fitted anything"),
+ "C19": ("exploration", "5 / C19",
+   TECH + "degenerate structure injected as a static data fault (zero column / group, duplicated or constant column, zero or constant target, one feature, n < p, 1e+-6 column scale) into seeded solves, warm starts and restarts of every catalogue family; oracles = finite, certificate, exact zero on null columns, no crash, no hang",
+   "Every run carries a degenerate-data fault; the degenerate coordinate's fate depends on the schedule (working set, warm-start mass, extrapolation). Hangs inside compiled kernels are detected by an external wall cap and reported as violations.",
+   "zero coefficients on null columns are demanded where leaving them non-zero breaks stationarity by more than tol"),
+ "C20": ("exploration", "5 / C20",
+   "deterministic simulation with fault injection: the same seeded plans replayed by the compiled engine, by the compiled engine with NUMBA_BOUNDSCHECK=1 and (natively bounds-checked) by the interpreted twin; oracle = no IndexError / broadcasting error, same outcome class, same converged objective",
+   "Shapes that move the last feature / group / sample to array ends (intercept on / off, working set = all features, one group, empty or full last CSC column, mis-sized start vectors that must be refused). Trajectories are not compared bit for bit (see DESIGN section 8): a bounds-checked build rounds differently and the solvers branch on rounding-level quantities.",
+   "numba's NUMBA_BOUNDSCHECK switch (not a source hook); negative-index wrap-around is not visible to bounds checking"),
+})
+
 NOT_APPLICABLE = {
  "C06": "pure functions of their arguments (loss formulas and derivatives): no schedule, stopping point, history or fault to simulate; needs input-space testing or proof. The reference model re-derives them, so errors that move a simulated run surface under C01/C02/C03.",
  "C07": "pure functions (proximal operators): decided by searching the input space, not by simulation.",
